@@ -192,6 +192,8 @@ def c14(run):
         run.count('split dispatchers', ns)
         run.count('leaf dispatchers', nl)
         check_access(run, F, 'C14.d')
+        from rules import c01 as _c01
+        _c01.deactivation_resets(run, F, E, 'C14.c')      # ... so that the next activation starts in the first declared state
         facts.drop(F)
         cfgmod.clear_cache()
     # C14.c on the interpreted program (whatever functions the activation / processing code is split into): with nothing accepted the
